@@ -4,6 +4,7 @@ go 1.23.0
 
 require (
 	github.com/go-critic/go-critic v0.0.0
+	github.com/go-toolsmith/astfmt v1.1.0
 	github.com/quasilyte/go-ruleguard v0.4.4
 	github.com/quasilyte/regex/syntax v0.0.0-20210819130434-b3f0c404a727
 	golang.org/x/tools v0.32.0
@@ -14,12 +15,10 @@ require (
 	github.com/go-toolsmith/astcast v1.1.0 // indirect
 	github.com/go-toolsmith/astcopy v1.1.0 // indirect
 	github.com/go-toolsmith/astequal v1.2.0 // indirect
-	github.com/go-toolsmith/astfmt v1.1.0 // indirect
 	github.com/go-toolsmith/astp v1.1.0 // indirect
 	github.com/go-toolsmith/strparse v1.1.0 // indirect
 	github.com/go-toolsmith/typep v1.1.0 // indirect
 	github.com/google/go-cmp v0.7.0 // indirect
-	github.com/quasilyte/go-ruleguard/dsl v0.3.22 // indirect
 	github.com/quasilyte/gogrep v0.5.0 // indirect
 	github.com/quasilyte/stdinfo v0.0.0-20220114132959-f7386bf02567 // indirect
 	golang.org/x/exp/typeparams v0.0.0-20240213143201-ec583247a57a // indirect
